@@ -128,19 +128,40 @@ def run(ctx):
                     isinstance(x, ast.Attribute) and x.attr == "peak_flux"
                     for x in ast.walk(t_)):
                 filt.append((s_, t_))
-    if len(filt) != 1:
+    # ... or a comprehension  `x for x in srcs if <keep>`  whose result is
+    # added to the catalogue
+    comps = []
+    for c_ in ast.walk(dr.node):
+        if isinstance(c_, (ast.ListComp, ast.GeneratorExp)) and \
+                len(c_.generators) == 1 and c_.generators[0].ifs:
+            cond = c_.generators[0].ifs
+            cond = cond[0] if len(cond) == 1 else ast.BoolOp(
+                op=ast.And(), values=list(cond))
+            t_ = ast.fix_missing_locations(_R().visit(_copy.deepcopy(cond)))
+            if {"nopositive", "nonegative"} & names_in(t_) and any(
+                    isinstance(x, ast.Attribute) and x.attr == "peak_flux"
+                    for x in ast.walk(t_)):
+                comps.append((c_, t_))
+    if len(filt) + len(comps) != 1:
         raise AnalysisError("C13-R1: expected one polarity filter in the "
-                            "driver, found %d" % len(filt))
-    f, ftest = filt[0]
-    has_cont = any(isinstance(b, ast.Continue) for b in f.body)
-    has_app = any(isinstance(c, ast.Call) and
-                  isinstance(c.func, ast.Attribute) and
-                  c.func.attr == "append" for b in f.body
-                  for c in ast.walk(b))
-    if has_cont == has_app:
-        raise AnalysisError("C13-R1: filter body neither skips nor appends")
-    # truth of the test means: dropped (continue) or kept (append)
-    test_means_drop = has_cont
+                            "driver, found %d" % (len(filt) + len(comps)))
+    if filt:
+        f, ftest = filt[0]
+        ftest_src = f.test
+        has_cont = any(isinstance(b, ast.Continue) for b in f.body)
+        has_app = any(isinstance(c, ast.Call) and
+                      isinstance(c.func, ast.Attribute) and
+                      c.func.attr == "append" for b in f.body
+                      for c in ast.walk(b))
+        if has_cont == has_app:
+            raise AnalysisError("C13-R1: filter body neither skips nor "
+                                "appends")
+        # truth of the test means: dropped (continue) or kept (append)
+        test_means_drop = has_cont
+    else:
+        f, ftest = comps[0]
+        ftest_src = ast.Tuple(elts=list(f.generators[0].ifs), ctx=ast.Load())
+        test_means_drop = False
     drops = True
     fluxname = sorted({norm(x) for x in ast.walk(ftest)
                        if isinstance(x, ast.Attribute) and
@@ -168,8 +189,20 @@ def run(ctx):
     for x in ast.walk(dr.node):
         for ch in ast.iter_child_nodes(x):
             pm[ch] = x
-    loop = pm.get(f)
     var = fluxname[0].split(".")[0]
+    if comps:
+        user = pm.get(f)
+        added = isinstance(user, ast.Call) and \
+            isinstance(user.func, ast.Attribute) and \
+            user.func.attr == "extend" and user.args and user.args[0] is f \
+            or isinstance(user, ast.AugAssign) and \
+            isinstance(user.op, ast.Add) and user.value is f
+        ok = added and norm(f.elt) == var and \
+            norm(f.generators[0].target) == var
+        ctx.check("C13-R1", dr, "kept sources are added unchanged", ok,
+                  "the only effect of the filter must be to leave sources "
+                  "out of the catalogue", node=f)
+    loop = pm.get(f) if not comps else None
     apps = [c for c in ast.walk(loop) if isinstance(c, ast.Call) and
             isinstance(c.func, ast.Attribute) and c.func.attr == "append"] \
         if isinstance(loop, ast.For) else []
@@ -180,9 +213,10 @@ def run(ctx):
     ok = isinstance(loop, ast.For) and norm(loop.target) == var and \
         len(apps) == 1 and [norm(a) for a in apps[0].args] == [var] and \
         not others
-    ctx.check("C13-R1", dr, "kept sources are appended unchanged", ok,
-              "the only effect of the filter must be to skip the append",
-              node=f)
+    if not comps:
+        ctx.check("C13-R1", dr, "kept sources are appended unchanged", ok,
+                  "the only effect of the filter must be to skip the append",
+                  node=f)
     # ---------------------------------------------------------------- R2
     ctx.rule("C13-R2", "non-interference: nopositive / nonegative are read "
              "only by the polarity filter")
@@ -192,7 +226,7 @@ def run(ctx):
             if isinstance(x, ast.Name) and x.id == nm and \
                     isinstance(x.ctx, ast.Load):
                 n += 1
-                inside = any(x is y for y in ast.walk(f.test))
+                inside = any(x is y for y in ast.walk(ftest_src))
                 if not inside:
                     # a named intermediate that only feeds the filter test
                     st_ = _stmt(pm, x)
@@ -204,7 +238,7 @@ def run(ctx):
                                 if isinstance(u, ast.Name) and u.id == nm_
                                 and isinstance(u.ctx, ast.Load)]
                         inside = bool(uses) and all(
-                            any(u is y for y in ast.walk(f.test))
+                            any(u is y for y in ast.walk(ftest_src))
                             for u in uses)
                 ctx.check("C13-R2", dr, "read of %s at line-independent "
                           "site %s" % (nm, "filter" if inside else
